@@ -61,6 +61,17 @@ ENUMS = {
 }
 
 
+# per-family additions: tools/params.d/*.json = {"consts": {NAME: [file, regex]}, "enums": {name: [file, enum]}}
+import glob
+import json
+for _p in sorted(glob.glob(os.path.join(os.path.dirname(os.path.abspath(__file__)), "params.d", "*.json"))):
+    _j = json.load(open(_p))
+    for _k, _v in _j.get("consts", {}).items():
+        CONSTS[_k] = tuple(_v)
+    for _k, _v in _j.get("enums", {}).items():
+        ENUMS[_k] = tuple(_v)
+
+
 def read(rel):
     with open(os.path.join(REPO, rel)) as f:
         return f.read()
